@@ -414,5 +414,12 @@ func genSend(r *sx.Rng, small bool) sx.Tree {
 		ack := r.Chance(30)
 		ops = append(ops, sx.T(sx.L(int64(r.Intn(ns))), sx.L(int64(r.Intn(3))), sx.B(ack), sx.Str(p.t), sx.Str(p.k), sx.Bytes(pl), sx.L(nilp)))
 	}
-	return sx.T(sx.L(12), sx.Ints(topics...), sx.T(ops...))
+	// the senders run on hosts whose clocks disagree (seconds added to the `updated` stamp of each sender's records)
+	skews := []int64{}
+	if ns > 1 && r.Chance(60) {
+		for i := 0; i < ns; i++ {
+			skews = append(skews, r.Range(-7200, 7200))
+		}
+	}
+	return sx.T(sx.L(12), sx.Ints(topics...), sx.T(ops...), sx.Ints(skews...))
 }
